@@ -129,7 +129,7 @@ def make_requests(rng, ds, prof):
         else:
             out.append(dict(kind="alt" if alt else "route", path=l3.route_qs(q, alt), acc=acc, egr=egr, scen=q["scen"], fwd=q["fwd"]))
     add("route", 0); add("route", 0, True); add("summary", 0)
-    add("route", 1); add("access", 1)
+    add("route", 1); add("access", 1); add("summary", 1)
     add("route", 2); add("summary", 2, True)
     add("access", 3); add("route", 3)
     add("route", 1)          # the LAST request before a refresh is on scenario 2, whose definition the refresh changes: the
@@ -205,6 +205,7 @@ def history_spec(seed, tier, index):
         for (q, acc, egr) in l3._gen_queries(gen, r2, sub, prof, 3):
             q = dict(q); q["scen"] = 2
             reqs.append(dict(kind="route", path=l3.route_qs(q, False), acc=acc, egr=egr, scen=2, fwd=q["fwd"]))
+            reqs.append(dict(kind="summary", path=l3.summary_qs(q, False), acc=acc, egr=egr, scen=2, fwd=q["fwd"]))
     return dict(index=index, kind=kind, cache_all=cache_all, omit=omit, names=NAMES[kind], A=A, B=B, A_back=A_back, requests=reqs)
 
 
@@ -297,7 +298,7 @@ def run_history(binary, spec, workdir, keep_on_failure=True):
 # ---------------------------------------------------------------------------------------------------
 # random refresh SEQUENCES ("kr"): 3-4 steps, each a change of the files followed by a refresh that names what changed
 # ---------------------------------------------------------------------------------------------------
-STEP_KINDS = ("trips", "scen2", "scen2_gone", "scen2_back", "trips+scen2", "newline")
+STEP_KINDS = ("trips", "scen2", "scen2_gone", "scen2_back", "trips+scen2", "newline", "stops_moved")
 # the cache names a step may be refreshed with (the handler reloads in the order given); only names that cover what changed,
 # and never an upstream collection alone (DESIGN 0.4)
 STEP_NAMES = {"trips": ["schedules", "all", "scenarios,schedules", "schedules,scenarios"],
@@ -305,7 +306,8 @@ STEP_NAMES = {"trips": ["schedules", "all", "scenarios,schedules", "schedules,sc
               "scen2_gone": ["scenarios", "schedules,scenarios", "all"],
               "scen2_back": ["scenarios", "scenarios,schedules", "schedules,scenarios", "all"],
               "trips+scen2": ["scenarios,schedules", "schedules,scenarios", "all"],
-              "newline": ["all"]}
+              "newline": ["all"],
+              "stops_moved": ["all"]}        # some stops move by a third of a metre (the router stub tells stops apart by their exact coordinates)
 
 
 def random_spec(seed, tier, index):
@@ -314,7 +316,7 @@ def random_spec(seed, tier, index):
     A = gen.gen_dataset(rng.fork(), prof)
     cur, steps, gone = A, [], False
     for k in range(rng.choice([3, 3, 4])):
-        kinds = [x for x in STEP_KINDS if (x == "scen2_back") == gone or x in ("trips", "newline")]
+        kinds = [x for x in STEP_KINDS if (x == "scen2_back") == gone or x in ("trips", "newline", "stops_moved")]
         kinds = [x for x in kinds if not (gone and x in ("scen2", "scen2_gone", "trips+scen2"))]
         kind = rng.choice(kinds)
         nxt = copy.deepcopy(cur)
@@ -322,6 +324,11 @@ def random_spec(seed, tier, index):
             nxt = modify(rng.fork(), cur, scen_too=False)
         if kind == "newline":
             nxt = modify(rng.fork(), cur, scen_too=False, new_line=True)
+        if kind == "stops_moved":
+            was = getattr(cur, "lon_off", None) or {}
+            nxt.lon_off = {n: (was.get(n, 0) + 4) % 8 if rng.chance(0.6) else was.get(n, 0) for n in nxt.nodes}
+            if all(nxt.lon_off[n] == was.get(n, 0) for n in nxt.nodes):
+                nxt.lon_off[nxt.nodes[0]] = (was.get(nxt.nodes[0], 0) + 4) % 8
         if kind in ("scen2", "trips+scen2", "scen2_back"):
             ref = [ls for (sid, ls) in A.scens if sid == 2][0]
             old2 = [ls for (sid, ls) in cur.scens if sid == 2]
@@ -346,6 +353,7 @@ def random_spec(seed, tier, index):
         for (q, acc, egr) in l3._gen_queries(gen, rng.fork(), sub, prof, 2):
             q = dict(q); q["scen"] = 2
             reqs.append(dict(kind="route", path=l3.route_qs(q, False), acc=acc, egr=egr, scen=2, fwd=q["fwd"]))
+            reqs.append(dict(kind="summary", path=l3.summary_qs(q, False), acc=acc, egr=egr, scen=2, fwd=q["fwd"]))
     return dict(index=index, kind="kr", cache_all=index % 2 == 1, A=A, steps=steps, requests=reqs)
 
 
@@ -370,6 +378,7 @@ def run_random_history(binary, spec, workdir):
         prev = ask_all(old, stub, reqs)
         for k, st in enumerate(spec["steps"]):
             l3.write_cache(st["ds"], cache)
+            stub.set_layout(st["ds"])            # exact coordinates of this step's stops (None-layout when no stop ever moved)
             ok, reply = update(old, st["names"])
             upd = "/updateCache?names=" + st["names"]
             if not ok:
